@@ -25,6 +25,11 @@ def configs():
                 out.append(({'arch_version': arch}, a, u, None))
     out.append(({'arch_version': 7, 'memory_system_architecture': 'VMSA', 'have_lpae': True, 'have_virt_ext': True}, 0, 1, 0))
     out.append(({'arch_version': 7, 'memory_system_architecture': 'VMSA', 'have_lpae': True, 'have_virt_ext': True}, 0, 1, 1))
+    # Hyp mode with its stage-1 MMU on, everything mapped flat as Normal memory (bit 1 of the last element): only HSCTLR.A decides about unaligned accesses
+    # there, whatever SCTLR.A of the PL1&0 regime says
+    for a in (0, 1):
+        for ha in (2, 3):
+            out.append(({'arch_version': 7, 'memory_system_architecture': 'VMSA', 'have_lpae': True, 'have_virt_ext': True}, a, 1, ha))
     return out
 
 
@@ -37,7 +42,9 @@ def cell(acc, rng, cfgov, a, u, hsctlr_a, size, off, basename, base, big, acc_na
            'sctlr': (a << 1) | (u << 22), 'R.PC': 0x1000}
     if hyp:
         st_['scr'] = 1
-        st_['hsctlr'] = hsctlr_a << 1
+        st_['hsctlr'] = ((hsctlr_a & 1) << 1) | (hsctlr_a >> 1)
+        if hsctlr_a & 2:
+            st_.update({'httbr': 0x20, 'htcr': 0, 'hmair0': 0xFF, 'hmair1': 0})
         st_['hcr'] = rng.choice((0, 1 << 12, (1 << 12) | 1, 1))          # HCR.DC / VM do not apply to Hyp-mode accesses: still Strongly-ordered, still faulting when split
     if mpu:
         # PMSA: region 0 everything RW; region 1 (higher priority) covers the mid device with AP = privileged-only (1) or user-read-only (2)
@@ -50,6 +57,10 @@ def cell(acc, rng, cfgov, a, u, hsctlr_a, size, off, basename, base, big, acc_na
         st_['drbars[1]'] = 0x1000
         st_['dracrs[1]'] = mpu << 8
     fill = [bytes(rng.getrandbits(8) for _ in range(n)) for _, n in LAYOUT]
+    if hyp and hsctlr_a & 2:
+        # four level-1 block descriptors (1 GiB each, identity, read/write, access flag set, attribute index 0 = Normal write-back) at 0x20
+        tbl = b''.join(((g << 30) | (1 << 10) | (1 << 6) | 1).to_bytes(8, 'little') for g in range(4))
+        fill[0] = fill[0][:0x20] + tbl
     for i, b in enumerate(fill):
         st_['mem%d' % i] = b
     target.apply_state(cpu, st_)
